@@ -46,7 +46,7 @@ namespace {
 
     // single-threaded calibration: the largest / smallest number of library atomic operations one call can execute
     template <class FL>
-    Calib calibrate()
+    Calib calibrate( std::string const& name )
     {
         Calib c;
         const unsigned N = 6;
@@ -66,7 +66,12 @@ namespace {
                 typename FL::node* p = fl.get();
                 uint64_t d = cdsv_rt_my_steps() - s0;
                 if ( d > c.max_get ) c.max_get = d;
-                if ( !p ) harness_failure( "calibration: get() returned null on a non-empty list (single thread)" );
+                if ( !p ) {
+                    // single thread: every node that was put and not taken out must be obtainable
+                    violation( "C21", "node-lost:" + name, "single-threaded put/get sequence: get() returned null although " + std::to_string( N - held.size()) + " node(s) are on the list",
+                               "{\"variant\":" + jstr( name ) + ",\"phase\":\"single-thread-calibration\",\"on_list\":" + std::to_string( N - held.size()) + "}" );
+                    break;
+                }
                 held.push_back( static_cast<Node<FL>*>( p ));
             }
             else {
@@ -78,9 +83,11 @@ namespace {
                 if ( d < c.min_put ) c.min_put = d;
             }
         }
-        {
+        if ( held.size() == N ) {
             uint64_t s0 = cdsv_rt_my_steps();
-            if ( fl.get()) harness_failure( "calibration: get() on an empty list returned a node" );
+            if ( fl.get())
+                violation( "C21", "node-handed-out-twice:" + name, "single-threaded sequence: all nodes are held but get() returned a node",
+                           "{\"variant\":" + jstr( name ) + ",\"phase\":\"single-thread-calibration\"}" );
             uint64_t d = cdsv_rt_my_steps() - s0;
             if ( d > c.max_get ) c.max_get = d;
         }
@@ -315,7 +322,13 @@ namespace {
         }
     }
 
+#if defined(__SANITIZE_THREAD__)
+    const double BUDGET_QUICK_S = 14.0;
+#else
+    const double BUDGET_QUICK_S = 18.0;
+#endif
     double g_deadline_step = 0, g_t0 = 0;
+    HangGuard* g_guard = nullptr;
     unsigned g_variant_no = 0;
 
     template <class FL>
@@ -325,17 +338,16 @@ namespace {
         if ( !args().want( name )) return;
         set_variant( name );
         PropStats& ps = prop( "C21" );
-        Calib cal = calibrate<FL>();
+        Calib cal = calibrate<FL>( name );
         Totals tot;
         std::unique_ptr<Crew> crew;
         double deadline = g_t0 + g_deadline_step * ( my_no + 1 );
         uint64_t i = 0;
         for ( ; i < runs; ++i ) {
-            if ( i % 40 == 0 ) {
-                if ( i && wall_now() > deadline ) break;       // wall-clock budget of the tier (only cuts the number of runs)
-                crew.reset(); crew.reset( new Crew( 4 ));      // fresh OS threads now and then
-            }
+            if ( i && i % 10 == 0 && wall_now() > deadline ) break;     // wall-clock budget of the tier (only cuts the number of runs)
+            if ( i % 40 == 0 ) { crew.reset(); crew.reset( new Crew( 4 )); }   // fresh OS threads (and thread ids) now and then
             one_run<FL>( *crew, name, cal, i, tot, ps );
+            g_guard->tick();
         }
         if ( i < runs ) ps.add_extra( "runs_not_made_because_of_the_wall_clock_budget", runs - i );
         ps.evaluations.fetch_add( tot.runs );
@@ -375,8 +387,10 @@ int main( int argc, char** argv )
 #elif defined(__SANITIZE_ADDRESS__)
     runs = args().n( 500, 10000 );
 #endif
+    HangGuard guard( "freelist", 12.0 );
+    g_guard = &guard;
     g_t0 = wall_now();
-    g_deadline_step = ( args().thorough ? 400.0 : 20.0 ) * args().scale / 6.0;
+    g_deadline_step = ( args().thorough ? 360.0 : BUDGET_QUICK_S ) * ( args().scale > 1 ? args().scale : 1.0 ) / 6.0;   // --scale < 1 cuts the planned runs, not the budget
     typedef cds::intrusive::FreeList FL;
     typedef cds::intrusive::TaggedFreeList TFL;
     run_variant< FL >( "FreeList", runs );
@@ -385,5 +399,6 @@ int main( int argc, char** argv )
     run_variant< cds::intrusive::CachedFreeList< FL, 4 > >( "CachedFreeList<FreeList,4>", runs );
     run_variant< cds::intrusive::CachedFreeList< TFL > >( "CachedFreeList<TaggedFreeList,16>", runs );
     run_variant< cds::intrusive::CachedFreeList< TFL, 4, 8 > >( "CachedFreeList<TaggedFreeList,4,pad8>", runs );
+    g_guard = nullptr;
     return finish( "freelist" );
 }
